@@ -73,12 +73,15 @@ def cases():
 
     def reorder(d):
         n = 0
-        for b in d["hir"]:
-            if b["def"] == "ipp::parser::ParserState::parse_delimiter":
-                for x in walk(b["body"]):
-                    if x.get("k") == "mcall" and x.get("name") == "push":
-                        x["name"] = "insert"
-                        n += 1
+        for pred in (lambda q: q == "ipp::parser::ParserState::parse_delimiter", lambda q: q.startswith("ipp::parser::ParserState::")):
+            for b in d["hir"]:
+                if pred(b["def"]):
+                    for x in walk(b["body"]):
+                        if x.get("k") == "mcall" and x.get("name") in ("push", "extend") and "IppAttributeGroup" in str(x["recv"].get("ty")) + str(x["recv"].get("adj")):
+                            x["name"] = "insert"
+                            n += 1
+            if n:
+                return n
         return n
 
     def new_static(d):
